@@ -16,7 +16,7 @@ SPEC = os.path.join(ROOT, "spec")
 HARN = os.path.join(ROOT, "harness")
 WORK = os.path.join(ROOT, "work")
 EVID = os.path.join(ROOT, "evidence")
-REPO = "/repo"
+REPO = os.environ.get("GCV_REPO", "/repo")   # (GCV_REPO: mutants/try_patch_iso.sh tests a patched scratch copy without touching /repo)
 NCPU = os.cpu_count() or 8
 
 
